@@ -164,21 +164,156 @@ theorem checkTxnStatus_eff {m : Mut} {ks : KeyState} (cur : Nat) (ok : TsOK S CV
       show HasR S (rollbackKey ks S)
       rw [e]; exact effRollback_hasR
 
-/-- a prewrite of another transaction (start ts ≠ S) that succeeds on the key -/
-theorem foreignKey_kstep {fts ttl : Nat} {m m' : Mut} {ks : KeyState} (hne : fts ≠ S)
-    (hok : (prewriteKey fts ttl m' ks).2 = .ok) : KStep S CV m ks (prewriteKey fts ttl m' ks).1 := by
-  unfold prewriteKey at hok ⊢
-  split at hok
-  · cases hok
-  · rename_i hlo
-    split at hok
-    · cases hok
-    · rename_i hnew
-      simp only [hlo, hnew]
-      refine KStep.foreign _ _ ?_ hne (by simp [setData, Ne.symm hne])
-      rintro ⟨l, hl, hts⟩
-      apply hlo
-      simp [lockedByOther, hl, hts, Ne.symm hne]
+/-! ### requests of other transactions -/
+
+theorem OtherStep.refl (ks : KeyState) {m : Mut} (h : KInv S CV m ks) : OtherStep S ks ks :=
+  ⟨fun _ _ => Iff.rfl, fun _ _ => Iff.rfl, h.uniq, rfl⟩
+
+/-- writing a record of another transaction (start ts ≠ S) at a commit ts that is neither S nor CV -/
+theorem otherStep_write {m : Mut} {ks : KeyState} (h : KInv S CV m ks) (r : WriteRec) (hs : r.startTs ≠ S)
+    (h1 : r.commitTs ≠ S) (h2 : r.commitTs ≠ CV) (lk' : Option Lock) (d' : Nat → Option Nat)
+    (hl : ∀ l : Lock, l.ts = S → (lk' = some l ↔ ks.lock = some l)) (hd : d' S = ks.data S) :
+    OtherStep S ks { lock := lk', writes := setWrite ks.writes r, data := d' } := by
+  refine ⟨hl, ?_, ?_, hd⟩
+  · intro w hw
+    simp only [mem_setWrite]
+    constructor
+    · rintro (rfl | ⟨hm, _⟩)
+      · exact absurd hw hs
+      · exact hm
+    · intro hm
+      refine Or.inr ⟨hm, ?_⟩
+      rcases h.recs w hm hw with rfl | rfl
+      · exact fun e => h1 e.symm
+      · exact fun e => h2 e.symm
+  · intro w1 hw1 w2 hw2 e
+    rcases mem_setWrite.1 hw1 with r1 | ⟨m1, n1⟩ <;> rcases mem_setWrite.1 hw2 with r2 | ⟨m2, n2⟩
+    · rw [r1, r2]
+    · subst r1; exact absurd e.symm n2
+    · subst r2; exact absurd e n1
+    · exact h.uniq w1 m1 w2 m2 e
+
+theorem dropLock_iff {fts : Nat} (hne : fts ≠ S) (o : Option Lock) (l : Lock) (hl : l.ts = S) :
+    dropLock fts o = some l ↔ o = some l := by
+  constructor
+  · intro h; exact (dropLock_some h).1
+  · intro h; rw [h]; exact dropLock_keep (by rw [hl]; exact Ne.symm hne)
+
+theorem other_rollbackKey {m : Mut} {ks : KeyState} (h : KInv S CV m ks) {fts : Nat} (h1 : fts ≠ S) (h2 : fts ≠ CV) :
+    OtherStep S ks (rollbackKey ks fts) := by
+  rcases rollbackKey_eff (S := fts) ks with e | ⟨_, e⟩
+  · rw [e]; exact OtherStep.refl ks h
+  · rw [e]
+    exact otherStep_write h ⟨fts, fts, .rollback⟩ h1 h1 h2 _ _ (fun l hl => dropLock_iff h1 ks.lock l hl)
+      (by simp [setData, Ne.symm h1])
+
+/-- the lock belongs to another transaction: whatever `commitKey` does is none of T's business -/
+theorem other_commitKey {m : Mut} {ks : KeyState} (h : KInv S CV m ks) {l : Lock} (hl : ks.lock = some l)
+    (hts : l.ts ≠ S) {cv : Nat} (h1 : cv ≠ S) (h2 : cv ≠ CV) : OtherStep S ks (commitKey ks l cv).1 := by
+  have nolock : ∀ l' : Lock, l'.ts = S → ((none : Option Lock) = some l' ↔ ks.lock = some l') := by
+    intro l' hl'
+    constructor
+    · intro e; cases e
+    · intro e; rw [hl] at e; cases e; exact absurd hl' hts
+  unfold commitKey
+  split
+  · exact OtherStep.refl ks h
+  · split
+    · split
+      · exact OtherStep.refl ks h
+      · split
+        · exact ⟨nolock, fun _ _ => Iff.rfl, h.uniq, rfl⟩
+        · exact OtherStep.refl ks h
+    · exact otherStep_write h ⟨cv, l.ts, l.kind⟩ hts h1 h2 _ _ nolock rfl
+
+theorem other_apply (pc : PercCfg) {m : Mut} {ks : KeyState} (h : KInv S CV m ks) (r : FReq)
+    (hd : r.Distinct S CV) : OtherStep S ks (r.apply pc ks) := by
+  cases r with
+  | prewrite m' fts ttl =>
+    obtain ⟨h1, _⟩ := hd
+    simp only [FReq.apply]
+    split
+    · rename_i hok
+      unfold prewriteKey at hok ⊢
+      split at hok
+      · cases hok
+      · rename_i hlo
+        split at hok
+        · cases hok
+        · rename_i hnew
+          simp only [hlo, hnew]
+          refine ⟨?_, fun _ _ => Iff.rfl, h.uniq, by simp [setData, Ne.symm h1]⟩
+          intro l hl
+          constructor
+          · intro e
+            have e' : (⟨fts, ttl, 0, m'.kind⟩ : Lock) = l := Option.some.inj e
+            subst e'
+            exact absurd hl h1
+          · intro e
+            exfalso
+            apply hlo
+            simp [lockedByOther, e, hl, Ne.symm h1]
+    · exact OtherStep.refl ks h
+  | commit k fts fcv =>
+    obtain ⟨h1, _, h3, h4⟩ := hd
+    simp only [FReq.apply]
+    unfold commitReqKey
+    split
+    · split
+      · split <;> exact OtherStep.refl ks h
+      · exact OtherStep.refl ks h
+    · rename_i l hl
+      split
+      · exact OtherStep.refl ks h
+      · rename_i hts
+        have hts' : l.ts = fts := by simpa using hts
+        exact other_commitKey h hl (by rw [hts']; exact h1) h3 h4
+  | resolve k fts fcv =>
+    obtain ⟨h1, h2, h3, h4⟩ := hd
+    simp only [FReq.apply]
+    unfold resolveKey
+    split
+    · exact OtherStep.refl ks h
+    · rename_i l hl
+      split
+      · exact OtherStep.refl ks h
+      · rename_i hts
+        have hts' : l.ts = fts := by simpa using hts
+        split
+        · exact other_rollbackKey h h1 h2
+        · exact other_commitKey h hl (by rw [hts']; exact h1) h3 h4
+  | check k fts cur =>
+    obtain ⟨h1, h2⟩ := hd
+    simp only [FReq.apply]
+    unfold checkTxnStatus
+    split
+    · rename_i l hl
+      split
+      · exact OtherStep.refl ks h
+      · rename_i hts
+        have hts' : l.ts = fts := by simpa using hts
+        split
+        · exact other_rollbackKey h h1 h2
+        · split
+          · refine ⟨?_, fun _ _ => Iff.rfl, h.uniq, rfl⟩
+            intro l' hl'
+            constructor
+            · intro e
+              simp only [Option.some.injEq] at e
+              subst e
+              exact absurd (hts'.symm.trans hl') h1
+            · intro e
+              rw [hl] at e
+              simp only [Option.some.injEq] at e
+              subst e
+              exact absurd (hts'.symm.trans hl') h1
+          · exact OtherStep.refl ks h
+    · split
+      · split <;> exact OtherStep.refl ks h
+      · exact other_rollbackKey h h1 h2
+  | rollback k fts =>
+    obtain ⟨h1, h2⟩ := hd
+    exact other_rollbackKey h h1 h2
 
 end perkey
 
@@ -187,7 +322,7 @@ end perkey
 variable {t : Txn}
 
 theorem prewrite_ginv (wf : TxnWF t) : ∀ (ms : List Mut) (s : Store), GInv t s → (∀ m ∈ ms, m ∈ t.muts) →
-    GInv t (prewrite t.start t.ttl ms s).1 ∧ SMono t.start s (prewrite t.start t.ttl ms s).1 ∧
+    GInv t (prewrite t.start t.ttl ms s).1 ∧ SMono t s (prewrite t.start t.ttl ms s).1 ∧
     ((prewrite t.start t.ttl ms s).2 = [] → ∀ m ∈ ms, Touched t.start ((prewrite t.start t.ttl ms s).1 m.key))
   | [], s, h, _ => ⟨h, SMono.refl _ _, fun _ m hm => by cases hm⟩
   | m :: ms, s, h, hsub => by
@@ -208,13 +343,13 @@ theorem prewrite_ginv (wf : TxnWF t) : ∀ (ms : List Mut) (s : Store), GInv t s
       rcases List.mem_cons.1 hm' with rfl | hm''
       · have : Touched t.start ((s.set m'.key (effLock t.start t.ttl m' (s m'.key))) m'.key) := by
           rw [Store.set_same]; exact Or.inl ⟨_, rfl, rfl⟩
-        exact (ih.2.1 m'.key).t this
+        exact (ih.2.1 m'.key ⟨m', hm, rfl⟩).t this
       · exact ih.2.2 hnil m' hm''
 
 /-- a commit RPC for secondaries only, issued while the primary is committed -/
 theorem commit_sec_ginv (wf : TxnWF t) (c : PercCfg) : ∀ (ks : List Nat) (s : Store), GInv t s →
     HasC t.start (s t.primary) → (∀ k ∈ ks, k ≠ t.primary ∧ ∃ m ∈ t.muts, m.key = k) →
-    GInv t (commit c t.start t.cv ks s).1 ∧ SMono t.start s (commit c t.start t.cv ks s).1
+    GInv t (commit c t.start t.cv ks s).1 ∧ SMono t s (commit c t.start t.cv ks s).1
   | [], s, h, _, _ => ⟨h, SMono.refl _ _⟩
   | k :: ks, s, h, hP, hsub => by
     obtain ⟨hkP, m, hm, rfl⟩ := hsub k (List.mem_cons_self ..)
@@ -232,14 +367,14 @@ theorem commit_sec_ginv (wf : TxnWF t) (c : PercCfg) : ∀ (ks : List Nat) (s : 
       have g := GInv.set wf h hm (KStep.commit l hl hts)
         (fun e => absurd e hkP) (fun _ _ _ => hP)
         (fun _ _ hr => absurd hr (effCommit_noR hn hkind))
-      have hP' := (g.2 t.primary).c hP
+      have hP' := (g.2 t.primary wf.primIsKey).c hP
       have ih := commit_sec_ginv wf c ks _ g.1 hP' hsub'
       simp only [commit, hok, if_true, he]
       exact ⟨ih.1, g.2.trans ih.2⟩
 
 /-- the commit RPC of the primary alone, issued after every prewrite succeeded -/
 theorem commit_prim_ginv (wf : TxnWF t) (c : PercCfg) (s : Store) (h : GInv t s) (hall : AllTouched t s) :
-    GInv t (commit c t.start t.cv [t.primary] s).1 ∧ SMono t.start s (commit c t.start t.cv [t.primary] s).1 ∧
+    GInv t (commit c t.start t.cv [t.primary] s).1 ∧ SMono t s (commit c t.start t.cv [t.primary] s).1 ∧
     ((commit c t.start t.cv [t.primary] s).2 = .ok → c.commitNoLockRejectsRollback = true →
       HasC t.start ((commit c t.start t.cv [t.primary] s).1 t.primary)) := by
   obtain ⟨m, hm, hmk⟩ := wf.prim
@@ -268,31 +403,31 @@ theorem commit_prim_ginv (wf : TxnWF t) (c : PercCfg) (s : Store) (h : GInv t s)
 theorem resolve_ginv (wf : TxnWF t) (cv : Nat) : ∀ (ks : List Nat) (s : Store), GInv t s →
     ((cv = t.cv ∧ HasC t.start (s t.primary)) ∨ (cv = 0 ∧ HasR t.start (s t.primary))) →
     (∀ k ∈ ks, ∃ m ∈ t.muts, m.key = k) →
-    GInv t (resolveLock t.start cv ks s).1 ∧ SMono t.start s (resolveLock t.start cv ks s).1
+    GInv t (resolveLock t.start cv ks s).1 ∧ SMono t s (resolveLock t.start cv ks s).1
   | [], s, h, _, _ => ⟨h, SMono.refl _ _⟩
   | k :: ks, s, h, hdec, hsub => by
     obtain ⟨m, hm, rfl⟩ := hsub k (List.mem_cons_self ..)
     have hsub' := fun k' h' => hsub k' (List.mem_cons_of_mem _ h')
     have hcv0 : t.cv ≠ 0 := by have := wf.lt; omega
     have next : ∀ (ks' : KeyState), (resolveKey t.start cv (s m.key)).1 = ks' →
-        GInv t (s.set m.key ks') → SMono t.start s (s.set m.key ks') →
+        GInv t (s.set m.key ks') → SMono t s (s.set m.key ks') →
         GInv t (resolveLock t.start cv (m.key :: ks) s).1 ∧
-          SMono t.start s (resolveLock t.start cv (m.key :: ks) s).1 := by
+          SMono t s (resolveLock t.start cv (m.key :: ks) s).1 := by
       intro ks' he g1 g2
       simp only [resolveLock]
       split
       · have hdec' : (cv = t.cv ∧ HasC t.start ((s.set m.key ks') t.primary)) ∨
             (cv = 0 ∧ HasR t.start ((s.set m.key ks') t.primary)) := by
           rcases hdec with ⟨e, hc⟩ | ⟨e, hr⟩
-          · exact Or.inl ⟨e, (g2 t.primary).c hc⟩
-          · exact Or.inr ⟨e, (g2 t.primary).r hr⟩
+          · exact Or.inl ⟨e, (g2 t.primary wf.primIsKey).c hc⟩
+          · exact Or.inr ⟨e, (g2 t.primary wf.primIsKey).r hr⟩
         have ih := resolve_ginv wf cv ks _ g1 hdec' hsub'
         rw [he]
         exact ⟨ih.1, g2.trans ih.2⟩
       · exact ⟨h, SMono.refl _ _⟩
     rcases resolveKey_eff cv (h.k m hm) with he | ⟨hz, hn, he⟩ | ⟨hnz, l, hl, hts, he⟩
     · have g1 : GInv t (s.set m.key (s m.key)) := by rw [Store.set_self]; exact h
-      have g2 : SMono t.start s (s.set m.key (s m.key)) := by rw [Store.set_self]; exact SMono.refl _ _
+      have g2 : SMono t s (s.set m.key (s m.key)) := by rw [Store.set_self]; exact SMono.refl _ _
       exact next (s m.key) he g1 g2
     · have hrP : HasR t.start (s t.primary) := by
         rcases hdec with ⟨e, _⟩ | ⟨_, hr⟩
@@ -318,80 +453,20 @@ theorem resolve_ginv (wf : TxnWF t) (cv : Nat) : ∀ (ks : List Nat) (s : Store)
         (fun _ _ hr => absurd hr (effCommit_noR hn hkind))
       exact next _ he g.1 g.2
 
-/-- another transaction prewrites one of the keys -/
-theorem foreign_ginv (wf : TxnWF t) (s : Store) (h : GInv t s) (k fts ttl v : Nat) :
-    GInv t (foreignPrewrite t s k fts ttl v) ∧ SMono t.start s (foreignPrewrite t s k fts ttl v) := by
-  unfold foreignPrewrite
-  split
-  · exact ⟨h, SMono.refl _ _⟩
-  · rename_i hne
-    split
-    · rename_i hany
-      simp only [List.any_eq_true, decide_eq_true_eq] at hany
-      obtain ⟨m, hm, rfl⟩ := hany
-      split
-      · rename_i hok
-        have st : KStep t.start t.cv m (s m.key) (prewriteKey fts ttl ⟨m.key, .put, v⟩ (s m.key)).1 :=
-          foreignKey_kstep hne hok
-        have same : ∀ ks', KStep t.start t.cv m (s m.key) ks' → ks'.writes = (s m.key).writes →
-            GInv t (s.set m.key ks') ∧ SMono t.start s (s.set m.key ks') := by
-          intro ks' st' hw
-          have hcE : HasC t.start ks' ↔ HasC t.start (s m.key) := by unfold HasC; rw [hw]
-          have hrE : HasR t.start ks' ↔ HasR t.start (s m.key) := by unfold HasR; rw [hw]
-          exact GInv.set wf h hm st'
-            (fun _ hnc hc => absurd (hcE.1 hc) hnc) (fun _ hnc hc => absurd (hcE.1 hc) hnc)
-            (fun _ hnr hr => absurd (hrE.1 hr) hnr)
-        refine same _ st ?_
-        unfold prewriteKey at hok ⊢
-        split at hok
-        · cases hok
-        · split at hok
-          · cases hok
-          · rename_i h1 h2; simp [h1, h2]
-      · exact ⟨h, SMono.refl _ _⟩
-    · exact ⟨h, SMono.refl _ _⟩
-
-theorem foreignAbort_kstep (s : Store) {m : Mut} (fts : Nat) (h1 : fts ≠ t.start) (h2 : fts ≠ t.cv) :
-    KStep t.start t.cv m (s m.key) (rollbackKey (s m.key) fts) ∧
-    (HasC t.start (rollbackKey (s m.key) fts) → HasC t.start (s m.key)) ∧
-    (HasR t.start (rollbackKey (s m.key) fts) → HasR t.start (s m.key)) := by
-  rcases rollbackKey_eff (S := fts) (s m.key) with e | ⟨_, e⟩
-  · rw [e]; exact ⟨KStep.same, id, id⟩
-  · rw [e]
-    have old : ∀ w ∈ (effRollback fts (s m.key)).writes, w.startTs = t.start → w ∈ (s m.key).writes := by
-      intro w hw hs
-      simp only [effRollback, mem_setWrite] at hw
-      rcases hw with r | ⟨m1, _⟩
-      · subst r; exact absurd hs h1
-      · exact m1
-    refine ⟨KStep.foreignRb fts h1 h2, ?_, ?_⟩
-    · rintro ⟨w, hw, hs, hk⟩; exact ⟨w, old w hw hs, hs, hk⟩
-    · rintro ⟨w, hw, hs, hk⟩; exact ⟨w, old w hw hs, hs, hk⟩
-
-/-- another transaction is rolled back on one of the keys -/
-theorem foreignAbort_ginv (wf : TxnWF t) (s : Store) (h : GInv t s) (k fts : Nat) :
-    GInv t (foreignAbort t s k fts) ∧ SMono t.start s (foreignAbort t s k fts) := by
-  unfold foreignAbort
-  split
-  · exact ⟨h, SMono.refl _ _⟩
-  · rename_i h1
-    split
-    · exact ⟨h, SMono.refl _ _⟩
-    · rename_i h2
-      split
-      · rename_i hany
-        simp only [List.any_eq_true, decide_eq_true_eq] at hany
-        obtain ⟨m, hm, rfl⟩ := hany
-        obtain ⟨st, hc, hr⟩ := foreignAbort_kstep (t := t) s (m := m) fts h1 h2
-        exact GInv.set wf h hm st
-          (fun _ hnc hc' => absurd (hc hc') hnc) (fun _ hnc hc' => absurd (hc hc') hnc)
-          (fun _ hnr hr' => absurd (hr hr') hnr)
-      · exact ⟨h, SMono.refl _ _⟩
+/-- a request of another transaction, on any key -/
+theorem other_ginv (wf : TxnWF t) (pc : PercCfg) (s : Store) (h : GInv t s) (r : FReq)
+    (hd : r.Distinct t.start t.cv) :
+    GInv t (s.set r.key (r.apply pc (s r.key))) ∧ SMono t s (s.set r.key (r.apply pc (s r.key))) := by
+  by_cases hk : ∃ m ∈ t.muts, m.key = r.key
+  · obtain ⟨m, hm, e⟩ := hk
+    rw [← e]
+    exact GInv.other wf h hm (other_apply pc (h.k m hm) r hd)
+  · exact GInv.set_nonkey wf h (fun m hm e => hk ⟨m, hm, e⟩) _
 
 /-- `CheckTxnStatus` on the primary -/
 theorem check_ginv (wf : TxnWF t) (cur : Nat) (s : Store) (h : GInv t s) :
     GInv t (s.set t.primary (checkTxnStatus t.start cur (s t.primary)).1) ∧
-    SMono t.start s (s.set t.primary (checkTxnStatus t.start cur (s t.primary)).1) ∧
+    SMono t s (s.set t.primary (checkTxnStatus t.start cur (s t.primary)).1) ∧
     (∀ cv, (checkTxnStatus t.start cur (s t.primary)).2 = .committed cv →
       cv = t.cv ∧ HasC t.start ((s.set t.primary (checkTxnStatus t.start cur (s t.primary)).1) t.primary)) ∧
     ((checkTxnStatus t.start cur (s t.primary)).2 = .rolledBack →
@@ -401,7 +476,7 @@ theorem check_ginv (wf : TxnWF t) (cur : Nat) (s : Store) (h : GInv t s) :
   obtain ⟨heff, hcm, hrb⟩ := checkTxnStatus_eff cur (wf.ok hm) (h.k m hm)
   simp only [Store.set_same]
   have key : GInv t (s.set m.key (checkTxnStatus t.start cur (s m.key)).1) ∧
-      SMono t.start s (s.set m.key (checkTxnStatus t.start cur (s m.key)).1) := by
+      SMono t s (s.set m.key (checkTxnStatus t.start cur (s m.key)).1) := by
     rcases heff with he | ⟨hn, he⟩ | ⟨l, n, hl, hts, he⟩
     · rw [he, Store.set_self]; exact ⟨h, SMono.refl _ _⟩
     · rw [he]
